@@ -15,7 +15,7 @@ Property theorems only. Two layers:
 * **instances over the regenerated tables** `Spine.Generated.Locks` (written by `go/lockgraph`
   from the tree under test on every run; `decide`, so a code change that alters a row re-checks
   them): `c17_lock_order_ranked`, `c17_no_lock_leak`, `c17_guarded_by`, `c17_common_lock_sound`,
-  `c17_undisciplined_exact`, `c17_tables_wellformed`;
+  `c17_undisciplined_exact`, `c17_tables_wellformed`, `c17_package_state_guarded`;
 * **connection** of the two: `c17_no_deadlock`, `c17_disciplined_fields_ordered` (exclusive mutex
   model), `c17_disciplined_fields_ordered_rw` (reader/writer model, covers every disciplined field).
 
@@ -191,6 +191,19 @@ theorem c17_undisciplined_exact :
     ∀ f ∈ undisciplined, (postRows f).any (·.write) = true ∧
       ∀ m ∈ List.range mutexNames.length, guardedBy f m = false := by
   decide +kernel
+
+/-- **Process-wide state (instance).** Every package-level variable of the module (map, slice,
+    pointer, scalar; model/, util/, spine/, api/) that is written after package initialisation is
+    accessed under a common lock on EVERY path — none is listed as undisciplined. Such state is
+    shared by all devices, features and connections, so a race on it needs no common object and
+    shows only on first use; it is therefore an obligation, not a finding candidate. On the tree
+    this was written for no such variable exists at all (`packageVars = []`); a memoisation map
+    added later must be guarded everywhere or this fails. -/
+theorem c17_package_state_guarded : ∀ v ∈ packageVars, v ∉ undisciplined := by decide +kernel
+
+/-- non-vacuity (independent of the generated rows): the same predicate over a small table with a
+    variable read once without its lock fails, with all accesses locked it holds -/
+example : ¬ (∀ v ∈ [3], v ∉ [1, 3]) ∧ (∀ v ∈ [3], v ∉ [1]) := by decide
 
 /-- every shared field has a post-construction write (that is what makes it shared) -/
 theorem c17_shared_written : ∀ f ∈ sharedFields, (postRows f).any (·.write) = true := by
